@@ -95,3 +95,29 @@ def rt_same(a, b):
 SPEC("pane.io", "from_yaml_all.bounded", bounded=True,
      ensures=[(lambda value, ty, result: len(result) == len(value), ["C19"], "one-per-document")],
      no_raise=["C19"], note="bounded: multi-document streams including null documents")
+
+
+# string variants: the text is wrapped in a StringIO and handed to the reader OF THE SAME FORMAT
+SPEC("pane.classes", "PaneBase.from_jsons",
+     ensures=[(lambda cls, s, custom, result: result == ret("pane.io:from_json", call(StringIO, s), cls, custom), ["C19"], "delegates")])
+SPEC("pane.classes", "PaneBase.from_yamls",
+     ensures=[(lambda cls, s, custom, result: result == ret("pane.io:from_yaml", call(StringIO, s), cls, custom), ["C19"], "delegates")])
+SPEC("pane.classes", "PaneBase.from_obj",
+     ensures=[(lambda cls, obj, custom, result: result == ret("pane.convert:convert", obj, cls, custom), ["C06", "C14"], "delegates")])
+
+# writers on an instance: serialise SELF as its own class with every option passed on; without a sink the text is returned
+SPEC("pane.classes", "PaneBase.write_json",
+     ensures=[(lambda self, f, indent, sort_keys, custom, result: implies(not is_none(f),
+               made(ret("pane.io:write_json", self, f, self.__class__, indent, sort_keys, custom)) and is_none(result)), ["C19"], "to-sink"),
+              (lambda self, f, indent, sort_keys, custom, result: implies(is_none(f), exists_val(lambda buf:
+               made(ret("pane.io:write_json", self, buf, self.__class__, indent, sort_keys, custom)) and result == methcall("getvalue", buf))), ["C19"], "to-string")])
+
+SPEC("pane.classes", "PaneBase.write_yaml",
+     ensures=[(lambda self, f, indent, width, allow_unicode, explicit_start, explicit_end, default_style, default_flow_style, sort_keys, custom, result:
+               implies(not is_none(f),
+                       made(ret("pane.io:write_yaml", self, f, self.__class__, indent, width, allow_unicode, explicit_start, explicit_end,
+                                default_style, default_flow_style, sort_keys, custom)) and is_none(result)), ["C19"], "to-sink"),
+              (lambda self, f, indent, width, allow_unicode, explicit_start, explicit_end, default_style, default_flow_style, sort_keys, custom, result:
+               implies(is_none(f), exists_val(lambda buf:
+                       made(ret("pane.io:write_yaml", self, buf, self.__class__, indent, width, allow_unicode, explicit_start, explicit_end,
+                                default_style, default_flow_style, sort_keys, custom)) and result == methcall("getvalue", buf))), ["C19"], "to-string")])
